@@ -9,10 +9,10 @@ import (
 
 func init() {
 	register(&property{
-		ID: "C12",
+		ID:          "C12",
 		Explanation: "Static decision of the PROXY protocol plumbing by path evaluation: (R1) the receiving handler, over every outcome of the allow-list decision and of header parsing: untrusted peer -> the untouched connection is passed on; parse error -> returned, nothing passed on; success -> the parsed conn is published under the key GetConn reads and Wrap(conn) is passed on; (R2) Wrap never hands unread buffered bytes to the new connection (exactly the header is removed from the stream); (R3-R5) dialPeers writes, per upstream, exactly one header of the configured version built from GetConn(down) before the upstream joins the relayed set, and the version switch reads the value Provision derived from the placeholder-resolved option ('v1'->1, 'v2'->2, anything else rejected); (R6) the allow list: no rules -> parse; rules and a containing rule -> parse with that rule's timeout; rules and none / non-IP peer -> pass through; (R7) tidyRules never loses a configured rule other than an exact duplicate.",
-		NotDecided: "Well-formedness of the emitted header bytes and the parsing of all header variants/TLVs (third-party library), address values for all families, matchers/placeholders downstream seeing the declared addresses beyond the connection being wrapped.",
-		Run:        runC12,
+		NotDecided:  "Well-formedness of the emitted header bytes and the parsing of all header variants/TLVs (third-party library), address values for all families, matchers/placeholders downstream seeing the declared addresses beyond the connection being wrapped.",
+		Run:         runC12,
 	})
 }
 
